@@ -490,12 +490,27 @@ impl PartialEq for ErasedList {
             return true;
         }
 
-        #[cfg(feature = "verif-hooks")]
-        c16_api::sched_lock(&self.0, "ErasedList::eq:self");
-        let this = self.0.lock().unwrap();
-        #[cfg(feature = "verif-hooks")]
-        c16_api::sched_lock(&other.0, "ErasedList::eq:other");
-        let other = other.0.lock().unwrap();
+        // Both lists stay locked during the comparison. The two mutexes are
+        // taken in a fixed global order (by address): if `a == b` locked `a`
+        // first and `b == a` on another thread locked `b` first, each would
+        // hold one mutex and wait forever for the other.
+        let (this, other) = if Arc::as_ptr(&self.0) < Arc::as_ptr(&other.0) {
+            #[cfg(feature = "verif-hooks")]
+            c16_api::sched_lock(&self.0, "ErasedList::eq:self");
+            let this = self.0.lock().unwrap();
+            #[cfg(feature = "verif-hooks")]
+            c16_api::sched_lock(&other.0, "ErasedList::eq:other");
+            let other = other.0.lock().unwrap();
+            (this, other)
+        } else {
+            #[cfg(feature = "verif-hooks")]
+            c16_api::sched_lock(&other.0, "ErasedList::eq:other");
+            let other = other.0.lock().unwrap();
+            #[cfg(feature = "verif-hooks")]
+            c16_api::sched_lock(&self.0, "ErasedList::eq:self");
+            let this = self.0.lock().unwrap();
+            (this, other)
+        };
 
         if this.len != other.len {
             return false;
